@@ -8,6 +8,7 @@ import (
 	"math/big"
 	"math/rand/v2"
 	"sort"
+	"strconv"
 	"strings"
 	"time"
 
@@ -34,9 +35,12 @@ type IbcEngine struct{}
 func (IbcEngine) Name() string { return "ibc" }
 
 func init() {
-	RegisterEngine([]string{"C19"}, func() Engine { return IbcEngine{} })
+	RegisterEngine([]string{"C19", "C18-ibc"}, func() Engine { return IbcEngine{} })
 	levels["C19"] = levelInfo{"exploration", "seeded generation of IBC histories (one run = one PRNG seed = one world configuration: validators, users, voucher registration mode, EVM transfer timeout, enabled relayer faults, action weights + one sequence of steps: ICS-20 transfers from Cosmos accounts and from the EVM over two 09-localhost loop-back channel pairs with drawn denoms / receivers / amounts / memos / timeouts, and relayer decisions relay / delay / drop / duplicate / reorder / forge for MsgRecvPacket, MsgAcknowledgement, MsgTimeout, clock jumps); distinct = hash of the (step shape, per-tx success) sequence; non-trivial = at least one packet was settled (acknowledged or timed out) during the run"}
+	levels["C18-ibc"] = levelInfo{"exploration", ibcC18Rule}
 }
+
+const ibcC18Rule = "IBC boundary of C18 on the IBC engine's world: seeded histories of ICS-20 packets (native FX returning home, vouchers credited as ERC-20 of a module-owned or an externally owned token pair) whose memo is a call to a recorder contract that fails late (REVERT after its writes, REVERT with data, INVALID opcode, out of gas, with and without value), next to calls that succeed, malformed memos and senders without account; every failing call must give an error acknowledgement and the full store dump before/after the relay block must be equal except IBC core's receipt/ack keys; distinct = hash of (step shapes, tx success); non-trivial = at least one packet with a failing memo call was received and judged"
 
 // ibcMemoType is the Any type URL of the memo call packet.
 const ibcMemoType = "/fx.ibc.applications.transfer.v1.IbcCallEvmPacket"
@@ -67,6 +71,8 @@ type IbcSt struct {
 	Order []string
 	Setup []Step
 	NUser int
+	Chans []string // all channel ids of the run (pair k = channel-2k / channel-2k+1)
+	C18   bool
 
 	Callee    common.Address
 	HasCallee bool
@@ -110,13 +116,32 @@ func (IbcEngine) GenConfig(rng *rand.Rand, prop string, tier string) RunConfig {
 		rc.Steps = 60 + rng.IntN(140)
 	}
 	rc.Knobs["v3"] = []string{"base", "base", "alias", "none"}[rng.IntN(4)]
+	// some runs open seven channel pairs (ids up to channel-13) and steer EVM-started transfers
+	// so that (channel-1, seq 1y) and (channel-1x, seq y) are in flight together
+	rc.Knobs["pairs"] = []string{"2", "2", "7"}[rng.IntN(3)]
 	rc.Knobs["ibc_timeout_s"] = []string{"30", "600", "43200"}[rng.IntN(3)]
 	for _, f := range ibcFaultKinds {
 		if rng.IntN(100) < 55 {
 			rc.Faults = append(rc.Faults, f)
 		}
 	}
-	base := map[string]int{"xfer": 14, "evm": 16, "relay": 40, "jump": 3, "empty": 4, "fundint": 3}
+	base := map[string]int{"xfer": 14, "evm": 16, "relay": 40, "jump": 3, "empty": 4, "fundint": 3, "toggle": 4, "collide": 0}
+	if rc.Knobs["pairs"] == "7" {
+		base["collide"] = 8
+	}
+	if rng.IntN(2) == 0 { // governance toggles token pairs only in half of the runs
+		base["toggle"] = 0
+	}
+	if ibcC18(prop) {
+		rc.Knobs["pairs"] = "2"
+		rc.Faults = nil
+		for _, f := range []string{"dup-recv", "reorder", "clock-jump"} {
+			if rng.IntN(100) < 40 {
+				rc.Faults = append(rc.Faults, f)
+			}
+		}
+		base = map[string]int{"xfer": 30, "evm": 8, "relay": 45, "jump": 1, "empty": 2, "fundint": 4, "toggle": 0, "collide": 0}
+	}
 	for _, k := range sortedKeys(base) {
 		v := base[k]
 		f := []int{1, 1, 1, 2, 3}[rng.IntN(5)]
@@ -129,24 +154,37 @@ func (IbcEngine) GenConfig(rng *rand.Rand, prop string, tier string) RunConfig {
 	if !rc.FaultOn("clock-jump") {
 		rc.Weights["jump"] = 0
 	}
+	if _, ok := rc.Weights["collide"]; !ok {
+		rc.Weights["collide"] = 0
+	}
 	return rc
 }
 
-var ibcChannels = []string{"channel-0", "channel-1", "channel-2", "channel-3"}
+// ibcChannelList: pair k is (channel-2k, channel-2k+1); both ends are this app.
+func ibcChannelList(pairs int) []string {
+	var l []string
+	for i := 0; i < 2*pairs; i++ {
+		l = append(l, fmt.Sprintf("channel-%d", i))
+	}
+	return l
+}
 
 func ibcPeer(ch string) string {
-	switch ch {
-	case "channel-0":
-		return "channel-1"
-	case "channel-1":
-		return "channel-0"
-	case "channel-2":
-		return "channel-3"
-	case "channel-3":
-		return "channel-2"
+	n, err := strconv.Atoi(ibcChanNum(ch))
+	if err != nil || n < 0 {
+		return ""
 	}
-	return ""
+	return fmt.Sprintf("channel-%d", n^1)
 }
+
+// ibcC18: the engine serves property C18's IBC boundary (a packet whose follow-up call
+// fails) instead of C19: same world, workload biased to memo calls that fail late, and only
+// the C18 oracles are reported.
+func ibcC18(prop string) bool { return prop == "C18" || prop == "C18-ibc" }
+
+// NewIbcEngineForC18 is the engine to run with r.Prop == "C18" (GenConfig(prop "C18"), Init,
+// Gen, Apply, Check, Finish all look at the property name).
+func NewIbcEngineForC18() Engine { return IbcEngine{} }
 
 func ibcV(ch string) string { return ibcVoucherDenom(ibcPort+"/"+ch, fxtypes.DefaultDenom) }
 
@@ -161,7 +199,11 @@ func (e IbcEngine) Init(r *Run) error {
 		return err
 	}
 	r.W = w
-	st := &IbcSt{Pkts: map[string]*ibcPacket{}, NUser: r.Cfg.World.Users,
+	pairs := r.Cfg.KnobInt("pairs", 2)
+	if pairs < 2 {
+		pairs = 2
+	}
+	st := &IbcSt{Pkts: map[string]*ibcPacket{}, NUser: r.Cfg.World.Users, Chans: ibcChannelList(pairs), C18: ibcC18(r.Prop),
 		ERC: map[common.Address]map[common.Address]*big.Int{}, Supply: map[common.Address]*big.Int{}, FX: map[common.Address]*big.Int{},
 		holderSet: map[common.Address]bool{}, Callers: map[common.Address]string{}, FundedInt: map[string]bool{}}
 	r.St = st
@@ -274,6 +316,13 @@ type ibcMemo struct {
 	To    common.Address
 	Data  []byte
 	Value *big.Int
+}
+
+func (f *ibcTxFact) memoData() []byte {
+	if f.Memo == nil {
+		return nil
+	}
+	return f.Memo.Data
 }
 
 func ibcMemoString(to string, dataHex string, value string) string {
@@ -662,6 +711,33 @@ func (e IbcEngine) attributeRecv(r *Run, oc *TxOutcome, f *ibcTxFact, facts *ibc
 	okAck, decoded := ibcAckSuccess(ack)
 	p.AckOK = okAck && decoded
 	f.Memo = ibcParseMemo(p.Data.Memo)
+	// C18 (IBC boundary): a memo call whose EVM execution fails is a tolerated failure whose
+	// designated outcome is the error acknowledgement
+	expectFail := f.Memo != nil && st.HasCallee && f.Memo.To == st.Callee && st.calleeIsContract(w) && ibcCalleeFails(f.Memo.Data)
+	evFail := false
+	for _, ev := range oc.Res.Events {
+		if strings.HasSuffix(ev.Type, "ibc_call") {
+			for _, a := range ev.Attributes {
+				if strings.HasSuffix(a.Key, "ibc_call_success") && a.Value == "false" {
+					evFail = true
+				}
+			}
+		}
+	}
+	if expectFail || evFail {
+		r.Probe("failing-memo-call-received")
+		if st.C18 {
+			r.Nontrivial = true
+		}
+		if p.AckOK {
+			why := "the recorder contract fails for call data " + hex.EncodeToString(f.memoData())
+			if !expectFail {
+				why = "the ibc_call event reports ibc_call_success=false"
+			}
+			facts.Viol = append(facts.Viol, Violation{Invariant: "tolerated-failure", Site: "ibc/failed-memo-call-success-ack",
+				Message: fmt.Sprintf("packet %s (%s %s to %s, memo %s) got the success acknowledgement %s although its memo call failed (%s): the packet's writes are committed", p.ID, p.Data.Amount, p.Data.Denom, p.Data.Receiver, p.Data.Memo, ack, why)})
+		}
+	}
 	memoClass := "memo:none"
 	switch {
 	case f.Memo != nil:
@@ -755,6 +831,9 @@ func (e IbcEngine) attributeSettle(r *Run, oc *TxOutcome, f *ibcTxFact, facts *i
 		f.Class = kind + "-fail"
 		switch {
 		case f.MustFail == "":
+			if p.FromEVM && len(e.disabledPairs(r)) > 0 {
+				r.Probe("refund-refused-while-a-pair-is-disabled")
+			}
 		case kind == "ack":
 			r.Fault("forged-ack")
 		case p.Recvd:
@@ -789,7 +868,9 @@ func (e IbcEngine) attributeSettle(r *Run, oc *TxOutcome, f *ibcTxFact, facts *i
 	}
 	p.SettledAt = r.StepNo
 	f.Class = "settle-" + p.Settled
-	r.Nontrivial = true
+	if !st.C18 {
+		r.Nontrivial = true
+	}
 	origin := "cosmos"
 	if p.FromEVM {
 		origin = "evm"
@@ -842,6 +923,8 @@ func (e IbcEngine) applyGov(r *Run, s *Step, o *Outcome) {
 	case "register_coin":
 		md := fxtypes.GetCrossChainMetadataOneToOne(s.A.Str("name"), s.A.Str("base"), s.A.Str("symbol"), 18)
 		msgs = append(msgs, &erc20types.MsgRegisterCoin{Authority: auth, Metadata: md})
+	case "toggle":
+		msgs = append(msgs, &erc20types.MsgToggleTokenConversion{Authority: auth, Token: s.A.Str("token")})
 	case "erc20_params":
 		p := w.App.Erc20Keeper.GetParams(w.Ctx())
 		p.IbcTimeout = time.Duration(s.A.I64("ibc_timeout_s")) * time.Second
